@@ -51,7 +51,8 @@ ATTRS = {
 def plan(tier):
     return {"shards": 8 if tier == "quick" else 16, "budget_s": 25 if tier == "quick" else 300,
             "required_counters": ["judged:valid", "judged:malformed", "judged:unspecified", "rejected", "accepted",
-                                  "readback_checks", "late_getB_checks", "route:ctor", "route:setter", "kind:invalid_geometry"]}
+                                  "readback_checks", "late_getB_checks", "route:ctor", "route:setter", "kind:invalid_geometry",
+                                  "field_func_cases", "field_func_accepted", "field_func_rejected", "late_getB_checks_in_collection"]}
 
 
 # ------------------------------------------------------------------ spec table
@@ -474,7 +475,14 @@ def check_case(ctx, case, value=None):
                 if cls == "Sensor":
                     magpy.getB(magpy.misc.Dipole(moment=(1, 2, 3)), obj)
                 else:
-                    magpy.getB(obj, [(2.1, 3.2, 4.3), (0.1, 0.2, 0.05)])
+                    try:
+                        magpy.getB(obj, [(2.1, 3.2, 4.3), (0.1, 0.2, 0.05)])
+                    finally:
+                        # the same source as (grand)child of a collection and next to a complete source: the
+                        # completeness checks must see through the flattening
+                        ctx.count("late_getB_checks_in_collection")
+                        ok_src = magpy.misc.Dipole(moment=(1, 2, 3))
+                        magpy.getB([ok_src, magpy.Collection(magpy.Collection(obj))], [(2.1, 3.2, 4.3)])
         except (MagpylibBadUserInput, MagpylibMissingInput):
             ctx.count("late_library_error")
         except Exception as e:
@@ -527,9 +535,85 @@ def make_value(rng, cls, attr, kind):
     return grammar_value(rng)
 
 
+FF_RET = ["ok", "none", "scalar", "list", "shape_n", "shape_n4", "shape_T", "string"]
+FF_SIG = ["good", "badnames", "onearg"]
+
+
+def make_ff(bB, bH, sig):
+    """CustomSource field function from the grammar: documented contract = first two positional arguments named
+    field, observers; returns an ndarray of shape (n,3) for 'B' and 'H', or None for a field it does not provide"""
+    def ret(kind, obs):
+        n = len(obs)
+        return {"ok": lambda: np.asarray(obs, float) * 0.5 + 1.0, "none": lambda: None, "scalar": lambda: 1.0,
+                "list": lambda: [[1.0, 2.0, 3.0]] * n, "shape_n": lambda: np.ones(n), "shape_n4": lambda: np.ones((n, 4)),
+                "shape_T": lambda: np.ones((3, n + 1)), "string": lambda: "B"}[kind]()
+    if sig == "good":
+        def f(field, observers):
+            return ret(bB if field == "B" else (bH if field == "H" else "none"), observers)
+    elif sig == "badnames":
+        def f(kind, points):
+            return ret(bB if kind == "B" else bH, points)
+    else:
+        def f(field):
+            return None
+    return f
+
+
+def check_field_func(ctx, case):
+    import magpylib as magpy
+    from magpylib._src.exceptions import MagpylibBadUserInput, MagpylibMissingInput
+
+    bB, bH, sig, route = case["B"], case["H"], case["sig"], case["route"]
+    valid = sig == "good" and bB in ("ok", "none") and bH in ("ok", "none")
+    f = make_ff(bB, bH, sig)
+    key = {"cls": "CustomSource", "attr": "field_func", "route": route}
+    ctx.count("field_func_cases")
+    ctx.evaluated(case, nontrivial=True)
+    obj, raised, before = None, None, None
+    try:
+        with quiet():
+            if route == "ctor":
+                obj = magpy.misc.CustomSource(field_func=f)
+            else:
+                obj = magpy.misc.CustomSource(field_func=make_ff("ok", "ok", "good"), position=(1, 2, 3))
+                before = (obj.field_func, D.digest_tree(obj))
+                obj.field_func = f
+    except Exception as e:
+        raised = e
+    if raised is not None:
+        ctx.count("field_func_rejected")
+        if valid:
+            ctx.violation({**key, "kind": "valid-value-rejected", "type": type(raised).__name__}, case, exc_info(raised))
+        elif not isinstance(raised, MagpylibBadUserInput):
+            ctx.violation({**key, "kind": "foreign-exception", "type": type(raised).__name__}, case, exc_info(raised))
+        if route == "setter" and obj is not None and (obj.field_func is not before[0] or D.digest_tree(obj) != before[1]):
+            ctx.violation({**key, "kind": "rejected-assignment-changed-object", "type": type(raised).__name__}, case, {})
+        return
+    ctx.count("field_func_accepted")
+    if not valid:
+        ctx.violation({**key, "kind": "malformed-accepted"}, case, {"B": bB, "H": bH, "sig": sig})
+        return
+    for F, b in (("B", bB), ("H", bH)):
+        try:
+            with quiet():
+                out = np.asarray(getattr(obj, "get" + F)([(1, 2, 3), (4, 5, 6)]))
+            if b == "none" or out.shape != (2, 3):
+                ctx.violation({**key, "kind": "field-of-unprovided-field_func" if b == "none" else "shape"}, case, {"out": out})
+        except (MagpylibBadUserInput, MagpylibMissingInput):
+            if b != "none":
+                ctx.violation({**key, "kind": "valid-field_func-fails-late"}, case, {"field": F})
+        except Exception as e:
+            ctx.violation({**key, "kind": "late-internal-error", "type": type(e).__name__, "judged": "valid"}, case, exc_info(e))
+
+
 def run_shard(ctx):
     rng = ctx.rng
     classes = list(ATTRS)
+    grid = [(b, h, sg, rt) for b in FF_RET for h in FF_RET for sg in FF_SIG for rt in ("ctor", "setter")]
+    for j, (b, h, sg, rt) in enumerate(grid):
+        if j % ctx.nshards == ctx.shard:
+            check_field_func(ctx, {"ff_grammar": True, "B": b, "H": h, "sig": sg, "route": rt})
+    ctx.count("field_func_slices_completed")
     while not ctx.expired():
         cls = classes[int(rng.integers(0, len(classes)))]
         attr = ATTRS[cls][int(rng.integers(0, len(ATTRS[cls])))]
@@ -543,4 +627,6 @@ def run_shard(ctx):
 
 
 def replay(ctx, case):
+    if case.get("ff_grammar"):
+        return check_field_func(ctx, case)
     check_case(ctx, case)
